@@ -2,6 +2,7 @@ package model
 
 import (
 	"fmt"
+	"math"
 	"strings"
 )
 
@@ -405,6 +406,30 @@ func (g *gen) aliasAndFixed() []*StructDef {
 	mk("Alias3", true, f(5, Required, I32), f(69, Required, String), f(133, Required, I64), f(6, Optional, I32))
 	mk("Alias4", false, f(62, Required, Bool), f(126, Default, I32), f(190, Optional, I32), f(254, Default, String), f(318, Optional, I64))
 	mk("Alias5", false, f(64, Required, I32), f(0, Default, I32), f(128, Optional, I32), f(4160, Default, I64))
+	// declared defaults of every scalar kind on optional non-pointer fields (and on a required and a default one):
+	// zero and non-zero, +0 / -0 / NaN for doubles, empty and non-empty strings and binaries
+	{
+		d := func(id uint16, req Req, k Kind, i int64, b string) *Field {
+			x := f(id, req, k)
+			x.OptPtr = false
+			x.Def = NewW(x.T.Wire())
+			x.Def.I, x.Def.B = i, []byte(b)
+			return x
+		}
+		s := mk("Defaults", true,
+			d(1, Optional, Double, 0, ""), d(2, Optional, Double, int64(-1<<63), ""), d(3, Optional, Double, 0x7ff8000000000001, ""),
+			d(4, Optional, Double, int64(math.Float64bits(1.5)), ""), d(5, Optional, I32, 0, ""), d(6, Optional, I32, 7, ""),
+			d(7, Optional, I64, -1, ""), d(8, Optional, Bool, 1, ""), d(9, Optional, Bool, 0, ""), d(10, Optional, String, 0, ""),
+			d(11, Optional, String, 0, "abc"), d(12, Optional, Binary, 0, ""), d(13, Optional, Binary, 0, "xy"), d(14, Optional, Enum, 3, ""),
+			d(15, Optional, I8, -128, ""), d(16, Optional, I16, 256, ""), d(17, Required, I32, 42, ""), d(18, Default, String, 0, "dflt"),
+			d(19, Required, Double, int64(math.Float64bits(2.5)), ""), f(20, Optional, I32))
+		s.InitDefault = true
+		mk("HoldDefaults", false,
+			&Field{ID: 1, Name: "F1", T: &T{K: Struct, S: "Defaults", Ptr: true}},
+			&Field{ID: 2, Name: "F2", T: &T{K: List, Elem: &T{K: Struct, S: "Defaults"}}},
+			&Field{ID: 3, Name: "F3", T: &T{K: Map, Key: &T{K: I32}, Elem: &T{K: Struct, S: "Defaults", Ptr: true}}, Req: Optional},
+			&Field{ID: 4, Name: "F4", T: &T{K: Struct, S: "Defaults"}})
+	}
 	// field-less definitions (nothing but the holder, or nothing at all), and holders of them
 	mk("EmptyN", false)
 	mk("EmptyU", true)
@@ -422,6 +447,13 @@ func (g *gen) aliasAndFixed() []*StructDef {
 	mk("FixedU", true, f(1, Default, I32), f(2, Required, I64), f(3, Default, Bool), f(4, Default, Double))
 	mk("FixedN", false, f(1, Default, I16), f(2, Required, I8), f(7, Default, I64))
 	mk("FixedOneU", true, f(3, Default, I64))
+	// second, independent holders of the same inner definitions (which holder is used first must not matter)
+	for _, in := range []string{"FixedU", "FixedN", "EmptyU"} {
+		mk("Also"+in, false,
+			&Field{ID: 1, Name: "F1", T: &T{K: Struct, S: in}, Req: Required},
+			&Field{ID: 2, Name: "F2", T: &T{K: I32}},
+			&Field{ID: 3, Name: "F3", T: &T{K: Struct, S: in, Ptr: true}, Req: Optional})
+	}
 	for i, in := range []string{"FixedU", "FixedN", "FixedOneU", "Alias1", "Alias3", "EmptyN", "EmptyU"} {
 		mk(fmt.Sprintf("Hold%s", in), i%2 == 0,
 			&Field{ID: 1, Name: "F1", T: &T{K: Struct, S: in, Ptr: true}},
